@@ -9,6 +9,11 @@ prefix-parse result `err | <addr>/<bits>`.
   tl <n> <entry>…   entry = rawhex|trimmedhex|pfxres|addrres     sets the trusted list; `ok p1,p2,…` | `err`
                                                   (after `err` the wrapper is nil: trusts nothing)
   ct <addrhex|nil> <hosthex> <parsedhost>         TrustedNetworks.Contains: `<hosthex> <0|1>`
+  cta <kind> <iphex|-> <zonehex|-> <strhex> <hosthex> <parsedhost>
+                                                  Contains on a concrete net.Addr implementation (tcp/udp/ip = *net.TCPAddr/
+                                                  UDPAddr/IPAddr built from the raw IP bytes + zone, str = String() only);
+                                                  model: the code's route through String(); spec: range membership of the
+                                                  NORMALISED address the bytes denote → `viol:contains-mismatch`
   wr <addrhex|nil> <hosthex> <parsedhost> <kind> <srchex> <payloadhex>
                                                   wrapConnTimeout on a fake conn; kind ∈ none idle proxy local bad
                                                   `a=<own|src|other> e=<none|superfluous|parse> d=<hex of bytes read>`
@@ -94,6 +99,17 @@ def step (s : St) (c : Case) : St × String × String :=
         (s, toHex host ++ (if r then " 1" else " 0"),
          if c.impl.endsWith (if want then " 1" else " 0") then "ok" else "viol:membership")
     | _, _, _ => (s, "bad-op", "-")
+  | "cta", [kind, ipb, zone, str, h, ph] =>
+    match parseHex ipb, parseHex zone, parseHex str, parseHex h, parseAddrTok ph with
+    | some ip, some z, some sb, some hb, some pa =>
+      let host := hostOf sb
+      if host ≠ hb then (s, "host-mismatch", "-") else
+      let r := containsParsed s.trusted pa
+      -- what the address denotes: from the raw bytes for socket addresses, from the text for a String()-only one
+      let denoted := if kind = "str" then pa else addrOfIP ip z
+      let want := trustedSpec s.trusted false denoted
+      (s, if r then "1" else "0", if c.impl = (if want then "1" else "0") then "ok" else "viol:contains-mismatch")
+    | _, _, _, _, _ => (s, "bad-op", "-")
   | "wr", [a, h, ph, kind, src, payload] =>
     match (if a = "nil" then some none else (parseHex a).map some), parseHex h, parseAddrTok ph,
           parseHdr kind src, parseHex payload with
